@@ -660,7 +660,23 @@ static void runCase(Sink &sink, const Args &a, long cs)
             pl->setup();
             std::atomic<long> evals{0};
             const bool stopOnExact = plannerKind != 4 || rng.coin(0.5);
-            ob::PlannerStatus st = pl->solve(ob::PlannerTerminationCondition([&] { return ++evals > budget || (stopOnExact && pdef->hasExactSolution()); }));
+            const bool dbg = getenv("VERIF_DEBUG") != nullptr;
+            const size_t chartCap = 1500;
+            std::atomic<bool> chartCapped{false};
+            ob::PlannerStatus st = pl->solve(ob::PlannerTerminationCondition([&] {
+                long e = ++evals;
+                if (dbg && e % 50 == 0)
+                    fprintf(stderr, "  evals=%ld charts=%zu\n", e, spaceKind > 0 ? css->as<ob::AtlasStateSpace>()->getChartCount() : (size_t)0);
+                // the atlas degenerates on some unsolvable instances (thousands of mutually clipping charts, every new chart
+                // compared with all of them): bound the run by the chart count as well (a count, not a clock)
+                if (spaceKind > 0 && css->as<ob::AtlasStateSpace>()->getChartCount() > chartCap)
+                {
+                    chartCapped = true;
+                    return true;
+                }
+                return e > budget || (stopOnExact && pdef->hasExactSolution());
+            }));
+            if (chartCapped) sink.count("c16_plans_stopped_by_chart_cap");
             sink.count(std::string("c16_plans_") + PLANNER_NAME[plannerKind]);
             bool pathAlive = true;
             for (auto &sol : pdef->getSolutions())
